@@ -569,6 +569,9 @@ type Contract struct {
 	Returns    map[int][]*Clause    // k -> conditions that hold whenever the k-th return statement is reached
 	Gotos      map[string][]*Clause // "label#k" -> conditions under which the k-th goto to label may be taken
 	Afters     map[string][]*Clause // "pkg.F#k" -> assertions proved (then assumed) right after the block-level statement containing the k-th call of pkg.F
+	Names      []string             // `names a b | r | x y`: the declared variables (receiver+params | named results | locals, declaration order) when the contract was written
+	NamesIn    int                  // ... how many of them are receiver+parameters
+	NamesOut   int                  // ... and named results
 	Reveal     []string             // `reveal spec.x`: prelude axioms annotated `;@ needs x` are shipped with this function's VCs (x need not be a declared symbol)
 	Hide       []string             // spec functions whose defining axioms (`;@ defines f` in the prelude) are not shipped with this function's VCs
 	Inlines    []string             // lemma functions: callees to execute by their bodies although they have contracts
@@ -605,7 +608,7 @@ type ContractSet struct {
 var clauseKeywords = map[string]bool{
 	"func": true, "props": true, "requires": true, "ensures": true, "assigns": true, "loop": true, "alias": true,
 	"inline": true, "trusted": true, "panics": true, "nooverflow": true, "lemma": true, "pure": true, "opaque": true,
-	"extern": true, "assert": true, "fresh": true, "maybenil": true, "package": true, "pred": true, "tagset": true, "aset": true, "reads": true, "inlines": true, "unroll": true, "exit": true, "use": true, "hide": true, "after": true, "uselate": true, "goto": true, "return": true, "reveal": true,
+	"extern": true, "assert": true, "fresh": true, "maybenil": true, "package": true, "pred": true, "tagset": true, "aset": true, "reads": true, "inlines": true, "unroll": true, "exit": true, "use": true, "hide": true, "after": true, "uselate": true, "goto": true, "return": true, "reveal": true, "names": true,
 }
 
 // assignSets: `//@ aset name := $.f, $.g[0:4]` — a reusable list of assigns items, `$` is the argument.
@@ -1030,6 +1033,19 @@ func (cs *ContractSet) ReadFile(path, pkgName string, external bool) error {
 				cur.UsesLate = append(cur.UsesLate, strings.Fields(strings.ReplaceAll(rest, ",", " "))...)
 			case "hide":
 				cur.Hide = append(cur.Hide, strings.Fields(strings.ReplaceAll(rest, ",", " "))...)
+			case "names":
+				groups := strings.Split(rest, "|")
+				cur.Names = nil
+				for gi, g := range groups {
+					fs := strings.Fields(g)
+					if gi == 0 {
+						cur.NamesIn = len(fs)
+					}
+					if gi == 1 {
+						cur.NamesOut = len(fs)
+					}
+					cur.Names = append(cur.Names, fs...)
+				}
 			case "reveal":
 				cur.Reveal = append(cur.Reveal, strings.Fields(strings.ReplaceAll(rest, ",", " "))...)
 			case "inlines":
